@@ -367,6 +367,13 @@ class World:
         return out
 
 
+def theirs_or_none(orig, n):
+    try:
+        return getattr(orig, fname(n))
+    except AttributeError:
+        return None
+
+
 def snapshot(w, inst, names):
     out = []
     for n in names:
@@ -510,6 +517,14 @@ def run_op(w, case, classes, call, regs, op):
                 theirs = None
                 same_orig.append(2)
             same_kw.append((1 if mine is given[n] else 0) if n in given else 2)
+            # is the field of the copy exactly the re-initialised default (what dataclasses.replace documents for init=False)?
+            reinit = None
+            if not f['init'] and f['default'] is not None:
+                if f['default'][0] == 'val':
+                    reinit = mine is w.val(f['default'][1])
+                else:
+                    reinit = (type(mine) is FACTORY[f['default'][1]] and len(mine) == 0 and id(mine) not in w.init_id
+                              and mine is not theirs_or_none(orig, n))
             # the property text, per field
             if n in given:
                 if mine is not given[n]:
@@ -519,15 +534,15 @@ def run_op(w, case, classes, call, regs, op):
             elif kind == 'copy':
                 if mine is not theirs:
                     viol.append({'clause': 'copy_with shares the un-replaced field object with the original (is)', 'field': n,
-                                 'init': f['init'], 'default': f['default'] and f['default'][0]})
+                                 'init': f['init'], 'default': f['default'] and f['default'][0], 'reinit': reinit})
             else:
                 if w.tree(mine) != w.tree(theirs):
                     viol.append({'clause': 'deep_copy_with: an un-replaced field equals the original\'s value', 'field': n,
-                                 'init': f['init'], 'default': f['default'] and f['default'][0]})
+                                 'init': f['init'], 'default': f['default'] and f['default'][0], 'reinit': reinit})
                 sh = set(w.reach_mutable([mine])) & set(w.reach_mutable([theirs]))
                 if sh:
                     viol.append({'clause': 'deep_copy_with shares no mutable field object with the original', 'field': n,
-                                 'init': f['init'], 'default': f['default'] and f['default'][0]})
+                                 'init': f['init'], 'default': f['default'] and f['default'][0], 'reinit': reinit})
         unrep = [fname(f['name']) for f in fields if f['init'] and f['name'] not in given]
         o_vals = [getattr(orig, fname(n)) for n in names if hasattr(orig, fname(n))]
         m_vals = [getattr(res, a) for a in unrep if hasattr(res, a)]
